@@ -6,6 +6,7 @@ import (
 	"errors"
 
 	"github.com/jig/lisp"
+	"github.com/jig/lisp/debuggertypes"
 	"github.com/jig/lisp/env"
 	"github.com/jig/lisp/lib/call"
 	. "github.com/jig/lisp/types"
@@ -94,9 +95,28 @@ func Harness_tail() {
 	prog = append(prog, lst(sym(fname(0)), n))
 	Depths = nil
 	e := env.NewSubordinateEnv(Base)
+	if vrt.Param("session", 0) != 0 {
+		// a debugger session that ended before the loop starts must leave nothing behind: a stepper answers the
+		// first consultations with symbolic commands (NoOp, Next, In, Out) on a small form and is then detached
+		seen := 0
+		lisp.Stepper = func(ast MalType, ns EnvType) debuggertypes.Command {
+			seen++
+			if seen > 2 {
+				return debuggertypes.NoOp
+			}
+			return debuggertypes.Command(vrt.Concrete(vrt.Choice("cmd"+string(rune('0'+seen)), 4)))
+		}
+		small := []MalType{lst(sym("+"), 1, 2), lst(sym("do"), lst(sym("+"), 1, 2), 3)}[vrt.Concrete(vrt.Choice("small", 2))]
+		_, serr := lisp.EVAL(context.Background(), small, e)
+		lisp.Stepper = nil
+		vrt.Assert(serr == nil, "the small form failed under a stepper")
+	}
 	_, err := lisp.EVAL(context.Background(), List{Val: prog}, e)
 	vrt.Observe("shape", shapeName)
 	vrt.Assert(len(Depths) == 3 && err != nil && errors.Is(err, errStop), "the loop did not run three iterations although the counter is at least 3: "+shapeName)
 	vrt.Assert(Depths[0] == Depths[1] && Depths[1] == Depths[2], "host stack depth grows from one iteration of a tail-recursive loop to the next: "+shapeName)
 	vrt.Reach("end")
 }
+
+// Harness_tail_session: the same measurement after a debugger session (see Harness_tail, parameter session).
+func Harness_tail_session() { Harness_tail() }
